@@ -899,7 +899,12 @@ func (e *Engine) verifyFuncMode(fn *ssa.Function, ct *Contract, sweep bool, prop
 				x.obligeCasesIdx("callsite", lbl, []oblCase{{Guard: "true", Goal: "false", Idx: 0}}, "call-site condition of "+c.Target+": the call is missing", fn.Pos(), true)
 				continue
 			}
+			before := len(x.obls)
 			x.obligeCasesIdx("callsite", lbl, x.csCases[c.Line], "call-site condition of "+c.Target+": "+c.Text, fn.Pos(), true)
+			// in the order in which obligations depend on each other the clause sits where its first call site is
+			if len(x.obls) == before+1 {
+				x.obls[before].Seq = x.csSeq[c.Line]
+			}
 		}
 	}
 	for _, r := range ct.Reveal {
